@@ -18,8 +18,8 @@ import (
 
 // Step is one input event of a history.
 type Step struct {
-	T    string `json:"t"`             // "key" | "abs" | "rep" (key repeat noise) | "midi" (MIDI-in message)
-	Sub  string `json:"sub,omitempty"` // sub-handler name (Handler.Name)
+	T    string `json:"t"`              // "key" | "abs" | "rep" (key repeat noise) | "midi" (MIDI-in message)
+	Sub  string `json:"sub,omitempty"`  // sub-handler name (Handler.Name)
 	Node int    `json:"node,omitempty"` // 1: the second event node of the device that carries the same sub-handler name
 	Code uint16 `json:"code"`
 	Val  int32  `json:"val"`
